@@ -434,13 +434,10 @@ impl CommandBuilder<'_> {
         if let Some(replace_str) = &self.options.replace {
             // Replace all occurrences in initial args with the extra arg,
             // Thanks to `MaxArgsCommandSizeLimiter`, we only process a single extra arg here.
-            let replacement = self.extra_args[0].to_string_lossy();
+            let replacement = &self.extra_args[0];
             let initial_args: Vec<OsString> = initial_args
                 .iter()
-                .map(|arg| {
-                    let arg_str = arg.to_string_lossy();
-                    OsString::from(arg_str.replace(replace_str, &replacement))
-                })
+                .map(|arg| replace_all(arg, replace_str, replacement))
                 .collect();
 
             command
@@ -511,6 +508,31 @@ impl CommandBuilder<'_> {
             }
         }
     }
+}
+
+/// `arg` with every occurrence of `pattern` replaced by `with`, byte for byte
+/// (the line read from the input need not be valid UTF-8).
+#[cfg(unix)]
+fn replace_all(arg: &OsStr, pattern: &str, with: &OsStr) -> OsString {
+    use std::os::unix::ffi::{OsStrExt, OsStringExt};
+    let (arg, pattern, with) = (arg.as_bytes(), pattern.as_bytes(), with.as_bytes());
+    let mut result = Vec::with_capacity(arg.len());
+    let mut i = 0;
+    while i < arg.len() {
+        if !pattern.is_empty() && arg[i..].starts_with(pattern) {
+            result.extend_from_slice(with);
+            i += pattern.len();
+        } else {
+            result.push(arg[i]);
+            i += 1;
+        }
+    }
+    OsString::from_vec(result)
+}
+
+#[cfg(not(unix))]
+fn replace_all(arg: &OsStr, pattern: &str, with: &OsStr) -> OsString {
+    OsString::from(arg.to_string_lossy().replace(pattern, &with.to_string_lossy()))
 }
 
 #[cfg(unix)]
